@@ -236,6 +236,10 @@ def classify(prop, jobs, wd, out=None, all_tags=None):
                 continue
             mine = any(d.startswith(t + ':') or d.startswith(t + '(') for t in j.tags) or \
                 (not re.match(r'C\d\d', d) and j.ub_pat is not None and re.search(j.ub_pat, pid + ' ' + d) is not None and '(model bound)' not in d and 'unwinding assertion' not in d)
+            if d.startswith('no body for callee') or d.startswith('no body for function'):
+                # a function the translation could not supply (harness out of step with the sources): no verdict from this job, never an alarm
+                if st == 'FAILURE': job_bad.append('model incomplete: %s [%s]' % (d, pid))
+                continue
             if '(model bound)' in d or 'unwinding assertion' in d or 'recursion unwinding' in d:
                 if st == 'FAILURE':
                     job_bad.append('bound exceeded: %s [%s]' % (d, pid))
